@@ -6,14 +6,14 @@ TECH = "contract-based deductive verification: go/ssa VC generation (govc) + z3/
 
 # id -> (what the contracts decide, what stays outside / assumed)
 CLAIMS = {
- "C01": ("MarshalClientHelloNoECH sets Hello.Raw to exactly the buffer it assembled (length 4+helloLen, closed form without padding); MarshalClientHello delegates to it without ECH and returns its error (and, after fix 65e8d74, the error of the outer ECH computation); writeHandshakeRecord sends the marshalled message and feeds the very same slice to the transcript; clientHelloMsg.marshal returns `original` when set and getPrivatePtr carries Raw into `original` (so the record written is Raw).",
-         "The glue in (*UConn).clientHandshake / handshakeContext (rebuild at handshake start, which message object is written, Raw after HRR) is a chain of uncontracted calls and is not decided; 'every edit is visible' is decided only through MarshalClientHelloNoECH reading the current fields."),
+ "C01": ("MarshalClientHelloNoECH hands the current fields of HandshakeState.Hello (version, random, session id, every cipher suite, compression methods) and the extension list in order to the serialiser, sets Hello.Raw to exactly the buffer it assembled, and reports unencodable hellos as errors; MarshalClientHello delegates to it; getPrivatePtr carries Raw into `original`, clientHelloMsg.marshal returns `original`, writeHandshakeRecord sends what marshal returns and feeds the same slice to the transcript; (*UConn).clientHandshake writes exactly that private view as first record, hands the same object to the TLS 1.2/1.3 state machines, and its deferred closure publishes that object's `original` as Hello.Raw afterwards; buildHandshakeState re-marshals on every build; SetClientRandom, RemoveSNIExtension (defect found and fixed, 3f9f50f), removeSNIExtension, ApplyConfig, extensionsList.",
+         "clientHandshake, buildHandshakeState, loadSession are thin contracts (anchors and control flow; panic-freedom and callee preconditions assumed, listed); that processHelloRetryRequest re-marshals into the same hello object is decided there (C17) for the non-ECH path only."),
  "C02": ("Per-extension wire format of all built-in extension encoders (Len/Read): exact type, outer and inner length prefixes, body bytes, ErrShortBuffer without writes, including the list-valued ones with running sums (ALPN, ALPS old/new, key_share, PSK fake/real, QUIC transport parameters, GREASE ECH); MarshalClientHelloNoECH: second padding extension is an error, total length check, and no length prefix is truncated on a nil return (defect found and fixed, 3b4694d; ECH error dropped, fixed 65e8d74).",
          "That no extension type repeats / PSK is last for every parrot (utlsIdToSpec tables are too large for the generator), and RFC-grammar parse of each body by an independent parser, are not decided; the padding case of the truncation clauses is outside (Update calls a user function)."),
  "C03": ("ApplyPreset copies the spec's cipher suites (GREASE re-drawn), compression methods (defect found and fixed, 7533201) and the extension list in order; legacy version rule via SetTLSVers; the shuffle closures of ShuffleChromeTLSExtensions exchange two elements or nothing and never touch other positions.",
          "utlsIdToSpec (2660-line literal switch) is beyond the generator: 'for every predefined id' is not decided; that the shuffle keeps GREASE/padding/PSK fixed needs the captured predicate (function value from a cell) and is not decided; extension bodies equal to the spec's after writeToUConn links is decided per extension only."),
- "C04": ("GetBoringGREASEValue, isGREASEUint16/unGREASEUint16, QUIC GREASE transport-parameter ids (31N+27, <= 2^62-1) and GREASE version form 0x?a?a?a?a (found violated, fixed by 6e3a082).",
-         "ApplyPreset's de-duplication of the two GREASE extensions and same-group GREASE in key_share/supported_groups, and freshness across connections (probabilistic) are not decided."),
+ "C04": ("GetBoringGREASEValue, isGREASEUint16/unGREASEUint16, QUIC GREASE transport-parameter ids (31N+27, <= 2^62-1) and GREASE version form 0x?a?a?a?a (found violated, fixed by 6e3a082); ApplyPreset: GREASE cipher suites become the connection's GREASE value, the two GREASE extensions get different values (the ^0x1010 fix-up is proved), and every GREASE entry of supported_groups and every GREASE key_share group equals the same per-connection GREASE group.",
+         "Freshness across connections (probabilistic) and the GREASE entries of supported_versions are not decided."),
  "C05": ("BoringPaddingStyle and AlwaysPadToLen closures: exact 255/512 policy incl. the 1-byte case and the total-length lemma; UtlsPaddingExtension Len/Read/Update; MarshalClientHelloNoECH calls Update iff there is exactly one padding extension, exactly once, on that extension, with headerLength+4+sum(Len of the others)+2.",
          "FromRaw padding reconstruction is not under contract; Update's callee GetPaddingLen is a user function."),
  "C06": ("Every extension decoder (Write) in u_tls_extensions.go is total and functional: accepted inputs characterised exactly, fields are the wire values (GREASE normalised), order preserved; FromRaw: framing accepted exactly as stated, versions, cipher suites (ReadCipherSuites exact, GREASE normalised), compression methods and the no-extension case exact; ReadTLSExtensions keeps the existing prefix and appends only non-nil extensions; AlwaysPadToLen policy; ApplyPreset re-applies cipher suites, compression methods (defect found and fixed, 7533201) and extension order.",
@@ -22,26 +22,26 @@ CLAIMS = {
          "Panics inside encoding/json and cryptobyte are assumed away (trusted contracts); the 'valid capture yields usable spec' lemma is decided only as: success returns a non-nil spec whose appended extensions are non-nil."),
  "C08": ("Len()==bytes written by Read(), prefixes, ErrShortBuffer with unchanged buffer for every built-in extension type incl. the list-valued ones (ALPN, ALPS, key_share, PSK, QUIC TP, GREASE ECH); decoders (Write) functional for 25 types, so Write(body(Read())) fields are pinned per type. Defects found and fixed: 0be6a29 (PSK Len/Read), 5e5db6f (GREASE ECH short payload).",
          "The per-type round-trip lemma Write(Read()) re-encodes to the same bytes is not stated as one lemma (both halves are, separately)."),
- "C09": ("Helpers of generateRandomizedSpec: removeRC4Ciphers (exact subsequence, no RC4), removeRandomCiphers (first kept, order and arbitrary per-element predicates preserved), sortableCiphers order (TLS 1.2 suites before older), shuffledCiphers, salted PRNG derivation, the swap closures; generateRandomizedSpec itself as far as its contract in verif_contracts_random.go goes (key-share/supported_groups consistency after fix e3585fa).",
-         "Seed reproducibility is determinism of the SHAKE/HKDF stream (trusted, symbolic); weight 0/1 clauses involve float products and are only decided in FlipWeightedCoin itself."),
- "C11": ("State hand-off between public and private handshake state is a complete field map (toPrivate13/12, toPublic13/12, key-share keys, KEM keys); fields without counterpart are enumerated.",
+ "C09": ("generateRandomizedSpec on the returned spec: every key-share group is listed in supported_groups, a listed X25519MLKEM768 has a key share (after fix e3585fa), ALPS only with ALPN, TLS 1.3 specs carry padding, a supported_versions list equal to [max..min], no RC4, and the 1.3-only extensions appear only with TLS 1.3; ALPN protocol lists are non-empty; a non-randomized id is an error; weight <= 0 for TLS 1.3 gives a 1.0-1.2 spec; RSA-PSS presence as an anchor before the signature-algorithm shuffle; helpers (removeRC4Ciphers, removeRandomCiphers, sortableCiphers, shuffledCiphers, salted PRNG derivation); the shuffles are modelled as loops over the verified swap closures; applyPresetByID generates randomized specs on the connection's own ClientHelloID (seed recorded).",
+         "Seed reproducibility is determinism of the SHAKE/HKDF stream (trusted, symbolic); suite order after sort.Sort and the other weight-0/1 clauses are not decided."),
+ "C11": ("State hand-off between public and private handshake state is a complete field map (toPrivate13/12, toPublic13/12, key-share keys, KEM keys); fields without counterpart are enumerated; SNIExtension.writeToUConn records the name actually sent (hostnameInSNI); the TLS 1.3 client derives the exporter secret in readServerFinished from the master secret and the transcript as of the server's Finished, and handshake() performs its steps in the stated order (thin contracts).",
          "Agreement with the server's ConnectionState and exporter equality are two-party properties outside function contracts; known finding: toPrivate13 drops EarlySecret/MasterSecret."),
  "C12": ("checkServerHelloOrHRR (TLS 1.3 version, session-id echo byte-wise, compression 0, suite among the offered ids and unchanged after HRR), processServerHello 1.3 (group offered, PSK identity index strictly below the number offered, hash match) and 1.2 (compression, suite offered, ALPN offered), readServerParameters (ALPN among offered), checkALPN, mutualCipherSuite(TLS13), cipherSuite(TLS13)ByID, pickCipherSuite, decompressCert (advertised algorithm only): success implies the server's choice was offered; each unoffered choice gives an error.",
          "'Before any application data' and 'never reported in ConnectionState' are ordering/history clauses outside function contracts; what was offered is hs.hello (identity with the on-wire bytes is C01)."),
- "C13": ("makeSupportedVersions, SupportedVersionsExtension.writeToUConn, Config.supportedVersions/mutualVersion, pickTLSVersion: the client adopts exactly the ServerHello's version and only if the configuration admits it; SetTLSVers derives Config.Min/MaxVersion from the spec (explicit or derived range) and rejects ranges outside TLS 1.0..1.3. Defect found and fixed: b395d93 (Firefox_102 range).",
-         "Known findings (open): SetTLSVers does not cross-check an explicit range against the supported_versions list, so 'accepted version was advertised' fails for such custom specs; the downgrade-sentinel branch of clientHandshake is not under contract (uncontracted call chain); utlsIdToSpec tables checked only by enumeration outside this technique (not counted)."),
- "C14": ("verifyServerCertificate: verification name is InsecureServerNameToVerify when set else ServerName, name check skipped for '*', time check relaxed only by InsecureSkipTimeVerify, roots and time from Config, ECH-rejected path verifies against the ECH public name (defect found and fixed, 8b5692c); checkKeySize, fipsAllowedChains.",
-         "x509.Certificate.Verify is trusted (abstract); that every handshake path calls verifyServerCertificate unless InsecureSkipVerify is decided only for the TLS 1.3 certificate readers under contract."),
+ "C13": ("makeSupportedVersions, SupportedVersionsExtension.writeToUConn, Config.supportedVersions/mutualVersion, pickTLSVersion: the client adopts exactly the ServerHello's version and only if the configuration admits it; SetTLSVers derives Config.Min/MaxVersion from the spec and rejects ranges outside TLS 1.0..1.3 (ApplyPreset applies it first); (*UConn).clientHandshake enters the state machines only after pickTLSVersion accepted the ServerHello and the RFC 8446 downgrade-sentinel check passed (thin contract). Defect found and fixed: b395d93 (Firefox_102 range).",
+         "Known findings (open): SetTLSVers does not cross-check an explicit range against the supported_versions list, so 'accepted version was advertised' fails for such custom specs; utlsIdToSpec tables are beyond the generator."),
+ "C14": ("verifyServerCertificate: verification name is InsecureServerNameToVerify when set else ServerName, name check skipped for '*', time check relaxed only by InsecureSkipTimeVerify, roots and time from Config, ECH-rejected path verifies against the ECH public name (defect found and fixed, 8b5692c); fresh TLS 1.3 (non-PSK) and TLS 1.2 (first handshake) paths reach it with the received chain and succeed only if it does; loadSession checks a cached session's leaf against the same verification name before offering it; clientSessionCacheKey is the configured ServerName unmodified; checkKeySize, fipsAllowedChains.",
+         "x509.Certificate.Verify/VerifyHostname are trusted (abstract); readServerCertificate, doFullHandshake, loadSession are thin contracts (anchors only)."),
  "C16": ("GREASEEncryptedClientHelloExtension: init/randomizePayload/Len/Read/Write: type outer, KDF/AEAD pair taken from the candidate list, 32-byte encapsulated key, payload length = candidate + 16, Len==Read bytes; Write rejects payloads shorter than the tag (defect found and fixed, 5e5db6f); BoringGREASEECH.",
          "'Identical bytes after HRR' holds because init runs once (sync.Once, modelled as a flag); freshness across connections is probabilistic and not decided."),
  "C17": ("processHelloRetryRequest without ECH: rejects no-change HRRs, unlisted groups, groups already shared, HRRs carrying a share; the second hello has exactly one fresh share for the selected group (its data is the public key of the key generated in this call, which is the one retained), cookie echoed, KeyShareExtension and CookieExtension of uconn.Extensions updated/inserted with PSK kept last; checkServerHelloOrHRR pins the suite across HRR.",
          "'Identical except key_share, cookie, padding' for all other extensions relies on MarshalClientHelloNoECH re-reading unchanged objects (frame assumed around it); the ECH branch and 'the handshake then completes' are not decided."),
  "C18": ("establishHandshakeKeys: the ECDH key used is the one generated for the group the server selected (first classical share or the by-group map; defect found and fixed, 99e3805), hybrid groups use the retained ML-KEM key and its own X25519 key on the right halves of the server share; getSharedKey accepts only peer shares of the key's curve length; ApplyPreset's key-share block retains a key for every generated share (hybrid overwrite fixed, 6b97ef4); generateECDHEKey/curveForCurveID sizes.",
          "Freshness/non-repetition across connections is probabilistic; that the two sides derive equal secrets needs the algebra of ECDH/ML-KEM (trusted)."),
- "C19": ("Session controller typestate (shared with C20): loadSession runs at most once, owned extensions are initialised with exactly the loaded session/ticket/identities, binders are updated only in the psk states, finalCheck locks; EMS link writeToUConn.",
-         "Resumption success, binder verification by the server and same-length binder patching (PatchBuiltHello uses cryptobyte builders) are not decided."),
- "C20": ("sessionController: representation invariant established by newSessionController and preserved by every operation; each documented-forbidden ordering hits a uAssert panic stated as `panics when`, each allowed ordering is panic-free; injected tickets/PSKs are written to the hello exactly as GetPreSharedKeyCommon/ticket extension return them.",
-         "anyTrue/allTrue/mapSlice/initializationGuard (generic higher-order helpers) are assumed for the closures used (listed); resumption with a real server is outside; observation: allTrue index precondition not established when the hello has more identities than the extension."),
+ "C19": ("Session controller typestate (shared with C20); uLoadSession: which of skip / injected ticket / injected PSK / cache load happens, injected sessions are never replaced by the cache; loadSession's name check and clientSessionCacheKey (a session is cached under, and checked against, the configured name); uApplyPatch keeps the length of Hello.Raw (binder patched in place), PatchBuiltHello recomputes the binder over the freshly marshalled hello (original = Raw) with the extension's binder key and suite hash; InitializeByUtls of the PSK/ticket extensions stores session, identities and placeholder binders of hash length; EMS link.",
+         "Resumption success and binder verification by the server are two-party; PatchBuiltHello/uLoadSession are thin contracts (cryptobyte builder closures and upstream loadSession assumed)."),
+ "C20": ("sessionController: representation invariant established by newSessionController and preserved by every operation; SetSessionTicketExtension / SetPskExtension / SetSessionState / SetSessionCache: exact effect and the documented panics as `panics when`; every allowed ordering is panic-free in these functions; buildHandshakeState performs preset (first build), config, session load, marshal, binder patch, final check in this order and applyPresetByID re-applies the spec on every build (control flow); injected tickets/PSKs are written to the hello exactly as given; ClientSessionState accessors/setters (SetSessionTicket nil dereference found and fixed, d22c6a5).",
+         "anyTrue/allTrue/mapSlice/initializationGuard (generic higher-order helpers) are assumed for the closures used (listed); resumption with a real server is outside."),
  "C21": ("decompressCert: accepted only if the decompressed stream has exactly the declared length and ends cleanly, under any per-Read behaviour of the decoder (abstract stream model), only advertised algorithms, framing of the reconstructed message; utlsCompressedCertificateMsg.unmarshal exact; the received message is the one transcribed and decompressed. Defect found and fixed (b66d8b7).",
          "brotli/zlib/zstd themselves are abstract streams (trusted readers.vc); transcript verification by the peer is outside."),
  "C22": ("encryptedExtensionsMsg.(utls)unmarshal and the client EncryptedExtensions unmarshal exact; utlsReadServerParameters: peer settings exposed, codepoint recorded, rejection below TLS 1.3 / without ALPN, local settings looked up under the negotiated protocol (defect found and fixed, 7854e18); sendClientEncryptedExtensions is sent iff ALPS was negotiated, with codepoint, local settings and the transcript.",
@@ -66,8 +66,8 @@ CLAIMS = {
          "The rest of the server (upstream crypto/tls: record layer, ClientHello parsing, processECHClientHello) is not under contract; deadlines/termination are outside function contracts."),
  "C35": ("encryptTicket/decryptTicket: bounds, lengths, MAC computed over iv||ciphertext in both, keys tried in order, authentic/reject clauses under a symbolic HMAC/CTR model; TicketKeyFromBytes/ticketKeyFromBytes derive identical keys; TicketKey conversions.",
          "Round trip Decrypt(Encrypt(s))==s needs string extensionality across heap updates (not decided); real MAC strength is an idealisation; SessionState codec is upstream."),
- "C36": ("NewLRUClientSessionCache/Get/Put refine a sequential LRU map of capacity n: data-structure invariant, Get hit/miss and recency update, Put insert/update/evict-least-recent/delete-on-nil, size never above capacity (Put(nil) on an absent key: defect found and fixed, c37dfbd); container/list is an abstract sequence (trusted containers.vc).",
-         "Linearizability and data-race freedom under concurrency are outside sequential contracts (mutex ops are no-ops for the verifier)."),
+ "C36": ("NewLRUClientSessionCache/Get/Put refine a sequential LRU map of capacity n: data-structure invariant, Get hit/miss and recency update, Put insert/update/evict-least-recent/delete-on-nil, size never above capacity (Put(nil) on an absent key: defect found and fixed, c37dfbd); lock discipline: every access to the list and the map inside Get and Put happens while the cache's mutex is held exclusively (ghost lock state), and it is released on return; container/list is an abstract sequence (trusted containers.vc).",
+         "Interleavings are not explored: linearizability follows from the lock discipline only informally (all accesses are inside Get/Put, both exclusive)."),
 }
 
 NA = {
